@@ -21,6 +21,25 @@ import time
 ROOT = os.path.dirname(os.path.dirname(os.path.abspath(__file__)))
 
 
+def enumerate_cases(mod, tier, seed):
+    """the property module's cases; in the thorough tier every semi-symbolic case (some blocks bound to seeded generic
+    rationals) is additionally run with two more draws of those rationals"""
+    import copy
+    cases = list(mod.cases(tier, seed))
+    if tier == "thorough":
+        extra = []
+        for c in cases:
+            if set((c.config or {}).get("concrete_blocks") or ()) - {"viaL", "upd", "viaSL", "pxdiag", "pxSL", "nnq"}:
+                for k in (1, 2):
+                    c2 = copy.copy(c)
+                    c2.id = f"{c.id}/draw{k}"
+                    c2.config = dict(c.config, rational_draw=k)
+                    c2.seed_offset = 1000 * k
+                    extra.append(c2)
+        cases += extra
+    return cases
+
+
 def _worker(prop, tier, seed, taskq, resq, cvc5):
     os.environ.setdefault("PYTHONDONTWRITEBYTECODE", "1")
     os.environ.setdefault("JAX_PLATFORMS", "cpu")
@@ -37,7 +56,7 @@ def _worker(prop, tier, seed, taskq, resq, cvc5):
     import gaussian_toolbox
     assert gaussian_toolbox.__file__.startswith(repo + "/"), gaussian_toolbox.__file__
     mod = importlib.import_module(f"gtverif.props.{prop.lower()}")
-    cases = mod.cases(tier, seed)
+    cases = enumerate_cases(mod, tier, seed)
     from gtverif.case import run_case
 
     class _TO(BaseException):
@@ -57,7 +76,7 @@ def _worker(prop, tier, seed, taskq, resq, cvc5):
         try:
             signal.alarm(int(c.timeout))
             try:
-                r = run_case(c, seed=seed, cvc5=cvc5)
+                r = run_case(c, seed=seed + getattr(c, "seed_offset", 0), cvc5=cvc5)
             finally:
                 signal.alarm(0)
         except _TO:
@@ -122,7 +141,7 @@ def main(argv=None):
     t_start = time.time()
     # enumerate cases in a subprocess-free way: importing the property module does not import jax
     mod = importlib.import_module(f"gtverif.props.{prop.lower()}")
-    cases = mod.cases(tier, seed)
+    cases = enumerate_cases(mod, tier, seed)
     ids = [c.id for c in cases]
     assert len(set(ids)) == len(ids), "duplicate case ids: " + str([i for i in ids if ids.count(i) > 1][:3])
     sel = [k for k, c in enumerate(cases) if args.only is None or re.search(args.only, c.id)]
